@@ -324,7 +324,19 @@ PROPS['C07']['explanation'] += (' THE SEARCH AT INDEX LEVEL (Model/SearchC.v, Pr
     'and C07_index_level_search_is_the_search proves that on every tree whose constraint names are registered and whose catch-all children carry data it returns exactly the answer of the functional search '
     '(grow_spec: the cursor loop = the fold of pick over the candidate enumeration, for the inline, the boundary-filtered and the stop-at-slash variants; dyn_segment_spec; the catch-all and literal cases); '
     'C07_search_never_panics: hence for every history and every path no index, slice or unwrap is out of range and the fuel suffices. Tie: the checker evaluates this model too on every real tree and query (IndexSearch). '
-    'Remaining partial: the index arithmetic of insert_static / find_static / delete_static (prefix[0], slices at the common prefix) and the Display/Debug code are covered by correspondence under catch_unwind only.')
+    'INSERT, FIND AND DELETE AT INDEX LEVEL (Model/OpsC.v, Proofs/OpsCP.v, closed): the three tree operations and the loops of Router::insert / Router::delete around them are modelled a second time in checked style - '
+    '`child.state.prefix[0]`, `prefix[0]`, `prefix[common_prefix..]`, `child.state.prefix[common_prefix..]`, `[..common_prefix]`, `static_children[1]`, `children[index]`, `children.remove(index)`, `static_children.remove(0)`, '
+    '`&prefix[child.state.prefix.len()..]` are explicit operations that can return Panic, the recursion runs on fuel and exhaustion is the outcome Fuel. C07_index_level_insert_is_the_insert / _find_ / _delete_: on every tree whose literal '
+    'children have non-empty prefixes (PNE; C07_wellformed_trees_have_nonempty_prefixes: every wf tree) and every well-formed part list they return exactly what the functional operations compute; C07_index_level_router_insert / _delete: '
+    'for every history and every template string the router-level calls over the checked parser and the checked operations are the functional ones, so (C07_insert_delete_never_panic_at_index_level) never Panic and never Fuel. '
+    'Tie: the checker evaluates these too from every real pre-state of an insert or delete and compares result, tree and flags with the crate (IndexOps). '
+    'Remaining partial: the Display/Debug code and `Router::new` (17 `unwrap`s on distinct built-in names) are covered by correspondence under catch_unwind only.')
+for _k, _v in PROPS.items():
+    for _lst in ('primary', 'secondary'):
+        if ('OpsInsert' in _v[_lst] or 'OpsDelete' in _v[_lst]) and 'IndexOps' not in _v['primary'] + _v['secondary']:
+            _v['secondary'] = _v['secondary'] + ['IndexOps']
+if 'IndexOps' not in PROPS['C07']['secondary']:
+    PROPS['C07']['secondary'] = PROPS['C07']['secondary'] + ['IndexOps']
 PROPS['C17']['explanation'] = PROPS['C17']['explanation'].replace(', and that the `regex` crate decides name_ok (OciName: the compiled regex vs name_ok on every string of length <= 6 over a 0 . _ - / A).',
     '. THE NAME PATTERN (Spec/Regex.v, Proofs/OciRegexP.v, closed): C17_name_pattern_is_the_name_grammar - the regular expression text REGENERATED from examples/oci/src/constraints/name.rs, parsed by a small regex parser '
     'written in Coq and read with the standard denotation of regular expressions, denotes exactly name_ok, for every byte string (regex -> state machine by running the machine over alnum runs and separators; '
